@@ -198,10 +198,12 @@ class LogRow(list):
         list.__setitem__(self, k, v)
 
 
-def make_rural(src, dst, variant=None, wind2=False):
+def make_rural(src, dst, variant=None, wind2=False, boundary=None):
     """Copy of a shipped EPW whose wind column holds a value pattern that differs between neighbouring
     rows and between rows 24 apart: w_k = ((7k) mod 120) / 10 (some below windMin = 1); with `wind2` the
-    pattern has two decimals, ((37k + 5) mod 1200) / 100. `variant`: header / leap variant of s1_util."""
+    pattern has two decimals, ((37k + 5) mod 1200) / 100. `variant`: header / leap variant of s1_util.
+    `boundary` = (first data row, hours, shift): every third cell of the modelled columns of those rows is
+    replaced by a member of t1_util.MILD (values at / beyond the EPW limits, other spellings)."""
     import s1_util as S
     rows = S.load_epw(src)
     if variant:
@@ -210,13 +212,16 @@ def make_rural(src, dst, variant=None, wind2=False):
     for i in range(8, len(rows)):
         rows[i][21] = ('%.2f' % (((37 * k + 5) % 1200) / 100.0)) if wind2 else ('%.1f' % (((7 * k) % 120) / 10.0))
         k += 1
+    if boundary:
+        import t1_util as T1
+        T1.boundary_window(rows, 8 + boundary[0], boundary[1], shift=boundary[2], table=T1.MILD, every=3)
     # written as plain text lines like the shipped files (no cell of a data row needs quoting)
     S.save_epw(rows, dst)
     return k
 
 
 def real_run(chk, M, D, days, dt, epw_name, variant=None, precision=None, windmin=None, wind2=False,
-             second=True):
+             second=True, boundary=None):
     """Full simulation + write_epw on a rural file with a patterned wind column.
     Returns (cases for the `wrow` tie, oracle message or None, stamps_ok, data rows).
 
@@ -225,11 +230,14 @@ def real_run(chk, M, D, days, dt, epw_name, variant=None, precision=None, windmi
     (start + n hours); for an 8784-row file only internal consistency is demanded (the rows read are the rows
     written, contiguous; every other row unchanged) - the model is a 365-day clock."""
     from uwg import UWG
+    from uwg.psychrometrics import hum_from_rhum_temp
+    from t1_util import num as fl, ind_hum     # cells are read as numbers with thousands separators dropped
     work = chk.work()
     leap = bool(variant) and 'leap8784' in variant
     tag = '%d_%d_%d_%s' % (M, D, dt, ''.join(c for c in (variant or 'base') if c.isalnum())[:24])
     rural = os.path.join(work, 'rural_%s_%s' % (tag, epw_name))
-    nrows = make_rural(simdriver.epw_path(epw_name), rural, variant, wind2)
+    nrows = make_rural(simdriver.epw_path(epw_name), rural, variant, wind2,
+                       (24 * doy0(M, D), 24 * days, boundary) if boundary is not None else None)
 
     def build(outname):
         m = UWG.from_param_file(simdriver.param_path(), epw_path=rural, new_epw_dir=work, new_epw_name=outname)
@@ -255,6 +263,11 @@ def real_run(chk, M, D, days, dt, epw_name, variant=None, precision=None, windmi
             model.write_epw()
     except Exception as e:  # noqa: BLE001 - inside the window nothing may raise
         where = 'generate' if model is None else 'simulate/write_epw'
+        if boundary is not None and 'FATAL ERROR' in str(e):
+            # the model's own fail-stop on extreme (legal) rural values: no urban hour exists, nothing to judge
+            chk.notes.append('un-stubbed run on rows at the EPW limits (%d/%d, shift %d) stopped by the model\'s own '
+                             'FATAL ERROR: not a C02 verdict' % (M, D, boundary))
+            return [], None, True, nrows
         return [], ('%s raised %s' % (where, type(e).__name__), str(e)[:300],
                     'a complete run: every hour of the window recorded and written'), True, nrows
     with open(rural, newline='') as f:
@@ -306,22 +319,29 @@ def real_run(chk, M, D, days, dt, epw_name, variant=None, precision=None, windmi
             k = by_stamp.get(stamp_dt(24 * j0 + n)) if stamps_ok else 24 * j0 + n
         src = orig[k]
         wd = model.WeatherData[n]
-        exp_wind = max(float(src[21]), wmin)
-        exp = {'temp': float(src[6]) + 273.15, 'rHum': float(src[8]), 'pres': float(src[9]),
-               'infra': float(src[12]), 'dir': float(src[14]), 'dif': float(src[15]),
-               'uDir': float(src[20]), 'wind': exp_wind}
+        exp_wind = max(fl(src[21]), wmin)
+        exp = {'temp': fl(src[6]) + 273.15, 'rHum': fl(src[8]), 'pres': fl(src[9]),
+               'infra': fl(src[12]), 'dir': fl(src[14]), 'dif': fl(src[15]),
+               'uDir': fl(src[20]), 'wind': exp_wind}
+        # the humidity of the record is the humidity of the air state the row describes (T, RH, P of the row)
+        exp['hum'] = hum_from_rhum_temp(exp['rHum'], fl(src[6]), exp['pres'])
         got = {f: getattr(wd, f) for f in exp}
         if got != exp:
             msg = ('hourly forcing record %d differs from %s' % (
                 n, 'the rural row its result is written to (row %d)' % k if leap else
-                'rural row %d of the window (the row stamped start + %d hours)' % (n, n)), got, exp)
+                'rural row %d of the window (the row stamped start + %d hours: T=%s RH=%s P=%s wind=%s)' % (
+                    n, n, src[6], src[8], src[9], src[21])), got, exp)
+        elif abs(wd.hum - ind_hum(exp['rHum'], fl(src[6]), exp['pres'])) > 1e-12 * abs(wd.hum):
+            msg = ('humidity of hourly forcing record %d is not the humidity ratio of the air state of its rural row '
+                   '(T=%s RH=%s P=%s)' % (n, src[6], src[8], src[9]), wd.hum,
+                   ind_hum(exp['rHum'], fl(src[6]), exp['pres']))
         elif written[n] != k:
             msg = ('record %d written to data row %d, its rural row (stamped start + %d hours) is %d' % (
                 n, written[n], n, k), written[n], k)
         elif new[k][21] != '{0:.{1}f}'.format(exp_wind, prec):
             msg = ('wind written to row %d (stamp %s/%s h%s; rural wind %s, minimum wind %r, epw_precision %d)' % (
                 k, src[1], src[2], src[3], src[21], wmin, prec), new[k][21], '{0:.{1}f}'.format(exp_wind, prec))
-        elif abs(float(new[k][21]) - exp_wind) > 0.5 * 10.0 ** (-prec) * (1 + 1e-9):
+        elif abs(fl(new[k][21]) - exp_wind) > 0.5 * 10.0 ** (-prec) * (1 + 1e-9):
             msg = ('wind written to row %d is not the rural wind raised to the minimum within the rounding of '
                    '%d decimals' % (k, prec), new[k][21], exp_wind)
         elif stamps_ok and not leap and (int(new[k][1]), int(new[k][2]), int(new[k][3])) != stamp_dt(24 * j0 + n):
@@ -352,8 +372,8 @@ def real_run(chk, M, D, days, dt, epw_name, variant=None, precision=None, windmi
             for n in range(N):
                 src = orig[written[n]]
                 wd = model.WeatherData[n]
-                exp = {'temp': float(src[6]) + 273.15, 'rHum': float(src[8]), 'pres': float(src[9]),
-                       'wind': max(float(src[21]), wmin)}
+                exp = {'temp': fl(src[6]) + 273.15, 'rHum': fl(src[8]), 'pres': fl(src[9]),
+                       'wind': max(fl(src[21]), wmin)}
                 got = {f: getattr(wd, f) for f in exp}
                 if got != exp:
                     msg = ('second generate+simulate on the same object (after write_epw): hourly forcing '
@@ -363,6 +383,127 @@ def real_run(chk, M, D, days, dt, epw_name, variant=None, precision=None, windmi
             msg = ('second generate+simulate on the same object raised %s' % type(e).__name__, str(e)[:200],
                    'a complete second run')
     return cases, msg, stamps_ok, nrows
+
+
+# ----------------------------------------------------------------------------------------------
+# rural rows at and beyond the limits of the EPW data dictionary (driver-only: no physics to upset)
+
+def boundary_run(chk, idx, M, D, days, dt, precision, windmin, shift):
+    """generate + driver-only simulate + write_epw on a copy of the Singapore file whose window rows hold, in every
+    modelled column, the members of t1_util.BOUNDARY. Returns (marks, message or None)."""
+    import s1_util as S
+    import t1_util as T1
+    from uwg import UWG
+    from uwg.psychrometrics import hum_from_rhum_temp
+    fl = T1.num
+    work = chk.work()
+    rows = S.load_epw(simdriver.epw_path())
+    first = 8 + 24 * doy0(M, D)
+    N = 24 * days
+    marks = T1.boundary_window(rows, first, N, shift=shift)
+    rural = S.save_epw(rows, os.path.join(work, 'c02b_%d.epw' % idx))
+    try:
+        with contextlib.redirect_stdout(io.StringIO()):
+            model = UWG.from_param_file(simdriver.param_path(), epw_path=rural, new_epw_dir=work,
+                                        new_epw_name='c02b_out_%d.epw' % idx)
+            model.month, model.day, model.nday, model.dtsim = M, D, days, dt
+            model.epw_precision = precision
+            if windmin is not None:
+                model.windmin = windmin
+            model.generate()
+    except Exception as e:  # noqa: BLE001
+        return marks, ('generate raised %s on a rural file with legal cells' % type(e).__name__, str(e)[:200], 'a model')
+    res = simdriver.driver_only_run(model, check_forc=False)
+    if res.error:
+        return marks, ('simulate (physics stubbed) raised %s' % res.error, res.error_msg, 'a complete run')
+    wmin = model.geoParam.windMin
+    if len(res.stored) != N:
+        return marks, ('number of hourly records', len(res.stored), N)
+    for n in range(N):
+        r = rows[first + n]
+        if (int(r[1]), int(r[2]), int(r[3])) != stamp_dt(24 * doy0(M, D) + n):
+            return marks, ('stamp of rural row %d of the window' % n, r[1:4], list(stamp_dt(24 * doy0(M, D) + n)))
+        t, rh, pr = fl(r[6]), fl(r[8]), fl(r[9])
+        exp = {'infra': fl(r[12]), 'wind': max(fl(r[21]), wmin), 'uDir': fl(r[20]),
+               'hum': hum_from_rhum_temp(rh, t, pr), 'pres': pr, 'temp': t + 273.15, 'rHum': rh, 'prec': 0.0,
+               'dif': fl(r[15]), 'dir': fl(r[14])}
+        if res.stored[n] is None:
+            return marks, ('record %d was never taken' % n, None, exp)
+        got = dict(zip(FORC_FIELDS, res.stored[n]))
+        if got != exp:
+            bad = sorted(f for f in exp if got[f] != exp[f])
+            return marks, ('hourly forcing record %d does not hold the values of its rural row (stamp %s/%s h%s; cells '
+                           'T=%r RH=%r P=%r infra=%r dir=%r dif=%r wdir=%r wind=%r): field(s) %s' % (
+                               n, r[1], r[2], r[3], r[6], r[8], r[9], r[12], r[14], r[15], r[20], r[21],
+                               ', '.join(bad)), {f: got[f] for f in bad}, {f: exp[f] for f in bad})
+        ih = T1.ind_hum(rh, t, pr)
+        if abs(got['hum'] - ih) > 1e-12 * abs(ih):
+            return marks, ('humidity of record %d is not the humidity ratio of the air state of its rural row '
+                           '(T=%r RH=%r P=%r)' % (n, r[6], r[8], r[9]), got['hum'], ih)
+    try:
+        with contextlib.redirect_stdout(io.StringIO()):
+            model.write_epw()
+    except Exception as e:  # noqa: BLE001
+        return marks, ('write_epw raised %s' % type(e).__name__, str(e)[:200], 'a file')
+    with open(model.new_epw_path, newline='') as f:
+        new = [r for r in csv.reader(f) if r]
+    if len(new) != len(rows):
+        return marks, ('rows in the written file', len(new), len(rows))
+    half = 0.5 * 10.0 ** (-precision) * (1 + 1e-9)
+    for i in range(8, len(rows)):
+        a, b = rows[i], new[i]
+        n = i - first
+        if 0 <= n < N:
+            w = max(fl(a[21]), wmin)
+            want = '{0:.{1}f}'.format(w, precision)
+            if b[21] != want or abs(fl(b[21]) - w) > half:
+                return marks, ('wind written to the row stamped %s/%s h%s (rural wind cell %r, minimum wind %r, '
+                               'epw_precision %d)' % (a[1], a[2], a[3], a[21], wmin, precision), b[21], want)
+            if b[:6] != a[:6] or b[9:21] != a[9:21] or b[22:] != a[22:]:
+                return marks, ('unmodelled cells of the row stamped %s/%s h%s' % (a[1], a[2], a[3]), b[:22], a[:22])
+        elif a != b:
+            return marks, ('row %d outside the window' % (i - 8), b[:22], a[:22])
+    return marks, None
+
+
+def boundary_runs(chk, thorough):
+    import t1_util as T1
+    rng = chk.rng
+    nruns = 6 if not thorough else 40
+    bad, members = [], set()
+    for idx in range(nruns):
+        M, D = rng.choice(dates()[:364])
+        days = 1 if idx % 3 else 2
+        cfg = dict(month=M, day=D, nday=days, dtsim=rng.choice([d for d in DIVISORS if d >= 100]),
+                   epw_precision=[1, 0, 2, 3, 1, 4][idx % 6] if idx < 6 else rng.randint(0, 6),
+                   windmin=[None, 0.5, 0.01, 1.0, 2.5, 0.25][idx % 6] if idx < 6 else rng.choice([None, 0.01, 0.5, 3.0]),
+                   shift=idx)
+        marks, msg = boundary_run(chk, idx, M, D, days, cfg['dtsim'], cfg['epw_precision'], cfg['windmin'], idx)
+        members |= set((c, v) for (n, c), v in marks.items())
+        if msg:
+            bad.append((cfg, msg))
+    for cfg, msg in bad[:3]:
+        chk.violation('impl-violation', 'C02 record / written-wind oracle on rural rows at the limits of the EPW data '
+                      'dictionary (generate + driver-only simulate + write_epw)',
+                      case=dict(cfg, epw=simdriver.EPWS[0] + ' with t1_util.boundary_window(rows, first row of the '
+                                'window, 24*nday, shift) applied'),
+                      observed={'what': msg[0], 'value': msg[1]}, expected=msg[2],
+                      how='harness/props/c02.py: boundary_run(chk, 0, month, day, nday, dtsim, epw_precision, windmin, shift)')
+    per_col = {T1.NAMES[c]: sorted(set(v for (cc, v) in members if cc == c)) for c in T1.BOUNDARY}
+    chk.direct('record+wind-oracle(rural rows at the EPW limits, every modelled column)', nruns, nruns,
+               'copies of the Singapore file whose window rows hold, in EVERY modelled column, values at and beyond '
+               'the limits the EPW data dictionary allows and in every spelling the package reads: RH 0, 0.4, 1, 99, '
+               '100, 101, 103, 105.5, 110, 95.38; dry bulb -70, 70, -0.0, -0.04, 0.05, "+12.5", " 7.3", "1.25e1"; '
+               'pressure 31000, 120000, "100,900" (thousands separator), "1.009E5", 99950.5; radiation 0, 1, 1100, '
+               '"1,050"; wind direction 0, 360, 180.5; wind speed 0, 0.04, 0.05, 0.95, 9.95, 10.0, "10", 20.0, 30.0, '
+               '40.0, 19.9, 20.1, "1E1" - x epw_precision 0..4 x minimum wind unset / 0.01 / 0.25 / 0.5 / 1 / 2.5 x '
+               'random start and hour-dividing dt. Real generate + simulate (physics stubbed) + write_epw: every '
+               'hourly forcing record holds exactly the numbers of its own rural row (cells read independently: '
+               'float of the text with separators dropped), its humidity is bit-identical to hum_from_rhum_temp(row RH, '
+               'row T, row P) and within 1e-12 of an independent formula, the wind cell written to that row is '
+               '"{:.<p>f}" of max(rural wind, minimum) and within half a unit of it, all other cells unchanged',
+               mismatches=len(bad), branches={'distinct (column, spelling) members': len(members)},
+               samples=[str(per_col)[:600]])
 
 
 def stamp_dt(k):
@@ -507,6 +648,12 @@ def run(chk):
         reals.append((rng.choice([(3, 1), (2, 28)] + late[:200:7]), 2 if rep == 1 else 1, 300, simdriver.EPWS[0],
                       dict(variant=rng.choice(['leap8784', 'leap8784+holidays-listed']),
                            precision=rng.choice([1, 3]), second=False)))
+    # rows at / beyond the EPW limits in an UN-stubbed run (every third cell of the modelled columns: RH 100..110
+    # and fractional, calm and 10 / 20 / 30 m/s winds, pressure with a thousands separator or an exponent, ...)
+    for rep in range(1 if not thorough else 4):
+        reals.append((rng.choice(dates()[:364]), 1, 300, simdriver.EPWS[0],
+                      dict(boundary=rng.randint(0, 23), precision=rng.choice([1, 1, 2, 3]),
+                           windmin=rng.choice([None, 0.5, 0.05]), second=False)))
     wcases, wbad = [], []
     for ((M, D), days, dt, name, opts) in reals:
         cs, msg, stamps_ok, nrows = real_run(chk, M, D, days, dt, name, **opts)
@@ -536,8 +683,12 @@ def run(chk):
                '1, one-decimal rural wind, shipped header) explored: header variants with the leap flag / actual-'
                'year header and a start from March on; epw_precision 2,3,4,16 x minimum wind 0.25/0.75/0.85/1.25/'
                '2.05; rural wind with two decimals; 8784-row leap files (only: rows read = rows written, contiguous, '
-               'everything else unchanged)',
+               'everything else unchanged); rows whose modelled cells sit at / beyond the EPW limits (RH 100..110 and '
+               '95.38, wind 0 / 0.04 / 10.0 / 20.0, pressure "100,900" / "1.009E5", direction 0 / 360): the '
+               'record - including its humidity, bit-identical to hum_from_rhum_temp(row RH, row T, row P) - must '
+               'still be the row',
                mismatches=len(wbad), branches={'runs': len(reals)})
+    boundary_runs(chk, thorough)
     # the doubles named in theorem asis_float_rowidx_wrong are the ones CPython computes
     import math
     ph = 48 / 3600.
@@ -566,7 +717,9 @@ def replay(chk, path):
               v.get('theorem_or_tie'))
         return 2
     cfg = (c['month'], c['day'], c['nday'], c['dtsim'])
-    if 'write_epw' in (v.get('theorem_or_tie') or ''):
+    if 'shift' in c:
+        _, msg = boundary_run(chk, 0, cfg[0], cfg[1], cfg[2], cfg[3], c['epw_precision'], c['windmin'], c['shift'])
+    elif 'write_epw' in (v.get('theorem_or_tie') or ''):
         name = c['epw'].split(' ')[0]
         _, msg, _, _ = real_run(chk, cfg[0], cfg[1], cfg[2], cfg[3], name, **(c.get('options') or {}))
     elif c.get('epw_variant'):
